@@ -14,6 +14,58 @@ DATATYPES = """(declare-datatypes ((Val 0)) (((VNone) (VInt (ival Int)) (VBool (
 class Spec:
     def __init__(self, name, smt, deps=(), py=None, kind='define', doc=''):
         self.name, self.smt, self.deps, self.py, self.kind, self.doc = name, smt, tuple(deps), py, kind, doc
+        self.decl = None
+        if smt.startswith('(define-fun-rec'):
+            self.decl = rec_to_decl(smt)
+
+
+def rec_to_decl(smt):
+    """(define-fun-rec f ((a S) ...) R body)  ->  (declare-fun f (S ...) R): the function as an uninterpreted symbol"""
+    assert smt.startswith('(define-fun-rec ')
+    rest = smt[len('(define-fun-rec '):]
+    name, rest = rest.split(' ', 1)
+    # parameter list: balanced parentheses
+    depth, i = 0, 0
+    while True:
+        if rest[i] == '(':
+            depth += 1
+        elif rest[i] == ')':
+            depth -= 1
+            if depth == 0:
+                break
+        i += 1
+    params = rest[1:i]
+    after = rest[i + 1:].lstrip()
+    # return sort: an atom or a parenthesised sort
+    if after[0] == '(':
+        depth, j = 0, 0
+        while True:
+            if after[j] == '(':
+                depth += 1
+            elif after[j] == ')':
+                depth -= 1
+                if depth == 0:
+                    break
+            j += 1
+        ret = after[:j + 1]
+    else:
+        ret = after.split()[0]
+    sorts = []
+    depth, cur = 0, ''
+    for ch in params:
+        if ch == '(':
+            depth += 1
+            if depth == 1:
+                cur = ''
+                continue
+        if ch == ')':
+            depth -= 1
+            if depth == 0:
+                # cur = 'name sort'
+                sorts.append(cur.strip().split(' ', 1)[1])
+                continue
+        cur += ch
+    return '(declare-fun %s (%s) %s)' % (name, ' '.join(sorts), ret)
 
 
 REGISTRY = {}
@@ -64,7 +116,7 @@ define('pyeq', """(define-fun pyeq ((x Val) (y Val)) Bool
   (= x y))))""", deps=['isint', 'toint', 'beq'])
 
 
-def build_query(hyps, goal, extra_decls=(), get_values=None, logic='ALL'):
+def build_query(hyps, goal, extra_decls=(), get_values=None, logic='ALL', opaque=False):
     """SMT-LIB text for:  hyps |= goal   (asserts hyps and (not goal))."""
     fv = {}
     apps = set()
@@ -81,7 +133,7 @@ def build_query(hyps, goal, extra_decls=(), get_values=None, logic='ALL'):
                     names.add(n)
     lines = ['(set-logic %s)' % logic, '(set-option :produce-models true)', DATATYPES.strip()]
     for spec in closure(names):
-        lines.append(spec.smt)
+        lines.append(spec.decl if (opaque and spec.decl) else spec.smt)
     for d in extra_decls:
         lines.append(d)
     for n in sorted(fv):
